@@ -248,11 +248,10 @@ func (c *vf44Case) put(i int) bool {
 	s.tombstoned, s.marked, s.cnrRemoved = false, false, false // the shard took it (again): earlier verdicts about it are void
 	c.cnrs[s.cnr].removed = false
 	if s.parent >= 0 && s.obj.Parent() != nil && !s.obj.Parent().GetID().IsZero() {
+		// the piece carries the parent header: the shard (re)creates the virtual parent record
 		p := c.slots[s.parent]
-		if !p.acked {
-			p.acked = true
-			p.tombstoned, p.marked, p.cnrRemoved = false, false, false
-		}
+		p.acked = true
+		p.tombstoned, p.marked, p.cnrRemoved = false, false, false
 	}
 	if s.kind == vf44Tomb && s.target >= 0 {
 		c.markTree(s.target, func(x *vf44Slot) { x.tombstoned = true })
@@ -598,14 +597,29 @@ func (c *vf44Case) finish(dir string) {
 	}
 	r.Count("objects_not_required_to_go_still_stored", survivors)
 	// what does GC see at the head of its garbage batch now?
+	// (known shape: only virtual split parents whose own pieces wait further down the list)
 	headVirtual, headN := 0, 0
+	listed := map[oid.Address]bool{}
+	if bins, err := c.sh.metaBase.GetGarbage(1 << 30); err == nil {
+		for _, b := range bins {
+			for _, id := range b.Objects {
+				listed[oid.NewAddress(b.Container, id)] = true
+			}
+		}
+	}
 	if bins, err := c.sh.metaBase.GetGarbage(c.rmB); err == nil {
 		for _, b := range bins {
 			for _, id := range b.Objects {
 				headN++
 				for _, s := range c.slots {
-					if s.kind == vf44Parent && s.addr.Object() == id && c.cnrs[s.cnr].id == b.Container {
-						headVirtual++
+					if s.kind != vf44Parent || s.addr.Object() != id || c.cnrs[s.cnr].id != b.Container {
+						continue
+					}
+					for _, p := range s.pieces {
+						if listed[c.slots[p].addr] {
+							headVirtual++
+							break
+						}
 					}
 				}
 			}
